@@ -1,18 +1,14 @@
 from abc import ABC
 from dataclasses import dataclass, field
-from decimal import Decimal as Decimal_
 from typing import Any, List
 
 import copy
 
 from smartquery.custom_types import Decimal
 from smartquery.exceptions import ParserError, OpsExecutionLimitExceededError
-from smartquery.functions import _dict_key_cast
+from smartquery.functions import _dict_key_cast, _mul, NUMERIC_TYPES
 from smartquery.utils import safe_cast
 from smartquery.vm_state import VMState, active_state
-
-
-NUMERIC_TYPES = (Decimal_, int, float)
 
 
 class Op(ABC):
@@ -73,10 +69,7 @@ class BinOp(Op):
         elif self.op == '-':
             return op1 - op2
         elif self.op == '*':
-            if not isinstance(op1, NUMERIC_TYPES) or not isinstance(op2, NUMERIC_TYPES):
-                raise ParserError(f'Can\'t multiply non-numbers')
-
-            return Decimal(op1) * Decimal(op2)
+            return _mul(op1, op2)
         elif self.op == '**':
             # explicitly cast to Decimal to avoid powering of big integers
             return Decimal(op1) ** Decimal(op2)
@@ -159,7 +152,7 @@ class ShortOp(Op):
         elif self.op == '-=':
             state.names[self.name] -= value
         elif self.op == '*=':
-            state.names[self.name] *= value
+            state.names[self.name] = _mul(state.names[self.name], value)
         elif self.op == '/=':
             state.names[self.name] /= value
         else:
